@@ -516,26 +516,34 @@ func runCase(c Case, x reporter) {
 				qA[i] = A.ask(qsAt[i])
 			}
 			// per-block receipt / kv material (for attributing the kvs-not-reset finding and for
-			// labels). It is taken from what the replica stored, not from the classification
-			// lists: those can be damaged by the known verifier races. A kv tx is executed iff its
-			// payload decodes (its nonce is not checked); any other tx was executed in this block
-			// iff a receipt for its hash exists now and did not exist before.
+			// labels): which txs were executed, by position. Normally read off the classification
+			// lists; when those are damaged by the known verifier races (flagA) the steering model
+			// decides (a kv tx is executed iff its payload decodes; for txs of unknown sender: iff
+			// a receipt for the hash exists now and did not before).
 			pos := positions(txs[i], o)
 			for j, bt := range txs[i] {
-				if pos[j] != bt.modelOK && bt.from >= 0 && !flagA[i] {
+				executed := pos[j]
+				if flagA[i] {
+					switch {
+					case bt.isKV:
+						executed = bt.kv != nil
+					case bt.from >= 0:
+						executed = bt.modelOK
+					default:
+						executed = !receipted[string(bt.hash)]
+					}
+				} else if pos[j] != bt.modelOK && bt.from >= 0 {
 					modelMismatch++
 				}
-				if pos[j] {
-					totalValid++
+				if !executed {
+					continue
 				}
+				totalValid++
 				if bt.isKV {
 					if bt.kv != nil {
 						b, _ := rlp.EncodeToBytes(bt.kv)
 						kvBytes[i] = append(kvBytes[i], b)
 					}
-					continue
-				}
-				if receipted[string(bt.hash)] {
 					continue
 				}
 				res := A.app.Query(append([]byte{rtypes.QueryType_Receipt}, bt.hash...))
